@@ -1121,9 +1121,28 @@ def r_dropless(ctx, view):
     ctx.cur = view
     drops = sorted(i["self_desc"] for i in prog.impls if i.get("trait") == "std::ops::Drop")
     want = ["double_priority_queue::iterators::IterMut", "priority_queue::iterators::IterMut"]
+    def whole_queue_handle(d):
+        """a NEW type with a destructor is harmless when nothing can be left open for the destructor to close: all it holds of a
+        queue is a reference to the WHOLE queue (every change it makes goes through functions of the queue, each of which is
+        checked to leave the tables consistent when it returns) - no table, map, store, raw pointer or owned part of one"""
+        a = prog.adts.get(d)
+        if not a or a.get("kind") != "Struct":
+            return False
+        for var in a.get("variants", []):
+            for fl in var.get("fields", []):
+                ty = fl["ty"]
+                if ty.get("k") == "ref" and (ty.get("inner") or {}).get("k") == "adt" and ty["inner"].get("path") in QUEUES:
+                    continue
+                txt = ty.get("s", "")
+                if any(w in txt for w in ("Store", "Vec<", "IndexMap", "*mut", "*const", "Index", "Position", "NonNull", "ManuallyDrop",
+                                          "MaybeUninit", "PriorityQueue", "Drain", "IterMut")):
+                    return False
+        return True
     for d in sorted(set(drops) | set(want)):
-        ctx.ob("R-DROPLESS", "Drop:%s" % d, d in want or d not in drops, "",
+        handle = d not in want and d in drops and whole_queue_handle(d)
+        ctx.ob("R-DROPLESS", "Drop:%s" % d, d in want or d not in drops or handle, "",
                "destructor of IterMut (re-establishes order only)" if d in want else
+               "new Drop impl for %s: the type holds only a reference to the whole queue, so no table can be left open for its destructor" % d if handle else
                "new Drop impl for %s: memory safety / emptiness must not depend on a destructor running (mem::forget is safe)" % d)
     # the constructors of the Drop types write nothing
     for T in want:
